@@ -12,11 +12,13 @@ use serde_json::json;
 
 pub struct C09;
 
-pub const NAMES: [&str; 38] = [
+pub const NAMES: [&str; 44] = [
     "a", "b", "c", "d", "android", "notx", "iffy", "minx", "inx", "format", "xorg", "orb", "truex", "asx",
     "falsey", "solver", "letter", "whereas", "defined", "maxim", "impliesx", "Trueish",
     // a keyword followed by a digit is an identifier too
     "not1", "or2", "and3", "xor1", "min2", "max2", "in3", "iff1", "true1", "false0", "sum1", "as2", "for3", "implies1", "solve1", "let2",
+    // names that look like the exponent of a number when a number stands right before them (2e1 is 2 * e1)
+    "e", "e1", "e2", "E3", "e10", "E",
 ];
 
 pub fn names() -> Vec<String> {
